@@ -662,3 +662,81 @@ func c13GenFcFiles(r *rand.Rand, n int, emit func(c13Input, []string)) {
 		emit(c13Input{Kind: "fcfile", Cache: doc.Bytes(), Probe: probe}, tl)
 	}
 }
+
+
+// ---------------------------------------------------------------- three lifetimes, the middle one a failed start
+
+// c13GenLife: run 1 declares two names (alpha, beta), does a little and closes: a good cache.
+// Run 2 declares one or two MORE names; the service is unreachable, or has only some of the new
+// names, and the caller's context ends (after 25 ms, or before the start begins).  Run 3 is the
+// restart with run 1's names and a dead service.
+func c13GenLife(r *rand.Rand, i int) c13Input {
+	in := c13Input{Kind: "life", Allow: true, Probe: append([]string{}, c13Universe...), Server: map[string]c13SV{}, Server2: map[string]c13SV{}}
+	perm := r.Perm(len(c13Universe))
+	in.Names = []string{c13Universe[perm[0]], c13Universe[perm[1]]}
+	gamma, delta, eps := c13Universe[perm[2]], c13Universe[perm[3]], c13Universe[perm[4]]
+	for _, n := range c13Universe {
+		in.Server[n] = c13SV{uint32(1 + r.IntN(3)), c13Pick(r, c13Values[2:])}
+	}
+	if r.IntN(3) == 0 { // run 1 itself starts from a cache: one declared name and an undeclared one, never the names run 2 adds
+		ks := []string{in.Names[0], eps}
+		sort.Strings(ks)
+		doc := c13Obj()
+		for _, n := range ks {
+			doc.O = append(doc.O, c13KV{[]byte(n), c13Entry(fmt.Sprint(r.IntN(3)), c13Pick(r, c13Values), fmt.Sprint(c13T0-int64(r.IntN(5000))))})
+		}
+		in.Cache = doc.Bytes()
+	}
+	if r.IntN(2) == 0 {
+		in.Ops = append(in.Ops, c13Op{Op: "read", Name: in.Names[0]})
+	}
+	if r.IntN(2) == 0 {
+		in.Ops = append(in.Ops, c13Op{Op: "lookup", Name: eps}) // an undeclared secret run 1 picked up
+	}
+	if r.IntN(3) == 0 {
+		n := in.Names[1]
+		in.Ops = append(in.Ops, c13Op{Op: "set", Name: n, Ver: in.Server[n].Ver + 1, Val: c13Pick(r, c13Values[2:])}, c13Op{Op: "poll"})
+	}
+	in.Ops = append(in.Ops, c13Op{Op: "tick", Secs: int64(1 + r.IntN(1000))}, c13Op{Op: "close"})
+	in.Names2 = append(append([]string{}, in.Names...), gamma)
+	switch i % 4 {
+	case 0: // service unreachable
+		in.Dead2 = true
+	case 1: // the new name does not exist (yet); the old ones would be answered but are cached anyway
+		for _, n := range in.Names {
+			in.Server2[n] = in.Server[n]
+		}
+	case 2: // two new names, one of them is fetched before the context ends
+		in.Names2 = append(in.Names2, delta)
+		in.Server2[delta] = c13SV{uint32(1 + r.IntN(3)), c13Pick(r, c13Values[2:])}
+	default: // the context has ended already; one of two new names could have been fetched
+		in.Names2 = append(in.Names2, delta)
+		in.Server2[delta] = c13SV{uint32(1 + r.IntN(3)), c13Pick(r, c13Values[2:])}
+		in.CtxDone2 = true
+	}
+	return in
+}
+
+// c13GenRetain: an ordinary history (all kinds of initial caches, lookups, polls, Close) over a
+// cache that KEEPS the slices it is given, with failing writes at about a third of the writing
+// calls; always closed at the end, then every retained slice is read again.
+func c13GenRetain(r *rand.Rand, i int) c13Input {
+	in := c13GenHist(r)
+	in.Kind, in.File, in.ReadFail, in.InitWFail = "retain", false, false, false
+	in.Retain = []string{"slice", "mem"}[i%2]
+	closed := false
+	for k := range in.Ops {
+		op := &in.Ops[k]
+		if op.Op == "lookup" || op.Op == "poll" {
+			op.WriteFail = r.IntN(3) == 0
+		}
+		if op.Op == "close" {
+			op.WriteFail = r.IntN(4) == 0
+			closed = true
+		}
+	}
+	if !closed {
+		in.Ops = append(in.Ops, c13Op{Op: "close", WriteFail: r.IntN(4) == 0})
+	}
+	return in
+}
